@@ -13,16 +13,16 @@ open Golib.C13 (PM IM)
 
 /-! ### `PushElement` -/
 
-theorem pushElement_core {cmp} (hs : SWO cmp) {m : HMem} {h e : Nat} (hh : h < 2)
-    (hc : MemCore m) (hl : LeftOK m (fun x => x ≠ e)) (ho : ∀ h', h' < 2 → HeapOrd cmp m h')
+theorem pushElement_core {cm : Nat → Int → Int → Bool} {m : HMem} {h e : Nat} (hs : SWO (cm h)) (hh : h < 2)
+    (hc : MemCore m) (hl : LeftOK m (fun x => x ≠ e)) (ho : ∀ h', h' < 2 → HeapOrd (cm h') m h')
     (hf : e < m.fresh) (hown : m.own.get e = none) :
-    ∃ m', m.pushElement cmp h e = some m' ∧ MemOK cmp m' ∧ (m'.arr h).Perm (e :: m.arr h) ∧
+    ∃ m', m.pushElement (cm h) h e = some m' ∧ MemOK cm m' ∧ (m'.arr h).Perm (e :: m.arr h) ∧
       m'.arr (oth h) = m.arr (oth h) ∧ m'.val = m.val ∧ m'.fresh = m.fresh := by
   -- the state handed to `up`
   let m2 : HMem := { ({ m with own := m.own.set e (some h) } : HMem) with
     idx := m.idx.set e ((m.arr h).length : Int) }
   let m3 : HMem := m2.setArr h (m.arr h ++ [e])
-  have hrun0 : m.pushElement cmp h e = upF (heapOps cmp h) m3 ((m.arr h).length : Int) := rfl
+  have hrun0 : m.pushElement (cm h) h e = upF (heapOps (cm h) h) m3 ((m.arr h).length : Int) := rfl
   have a3 : m3.arr h = m.arr h ++ [e] := arr_setArr m2 h _
   have o3 : m3.arr (oth h) = m.arr (oth h) := arr_setArr_oth m2 h _
   have v3 : m3.val = m.val := val_setArr m2 h _
@@ -111,20 +111,20 @@ theorem pushElement_core {cmp} (hs : SWO cmp) {m : HMem} {h e : Nat} (hh : h < 2
       simp only [hxe, if_false]
       rw [f3] at hxf
       exact hl x hxe hxf hxo
-  have ho3 : HeapOrd cmp m3 (oth h) := by
+  have ho3 : HeapOrd (cm (oth h)) m3 (oth h) := by
     have := ho (oth h) (oth_lt2 h)
     unfold HeapOrd at this ⊢
     rw [o3, v3]; exact this
   -- the slice side
   have hs' := cmpId_swo hs m.val
-  have hheap : Heap (cmpId cmp m.val) (ids m h) := (heapIds_iff cmp m.val m h).2 ((heapOrd_iff cmp m h).1 (ho h hh))
+  have hheap : Heap (cmpId (cm h) m.val) (ids m h) := (heapIds_iff (cm h) m.val m h).2 ((heapOrd_iff (cm h) m h).1 (ho h hh))
   obtain ⟨s', hpush, hheap', hperm'⟩ := slice_push hs' (ids m h) (e : Int) hheap
   have hids3 : ids m3 h = ids m h ++ [(e : Int)] := by simp [ids, a3]
   have hidx : (((ids m h ++ [(e : Int)]).length : Nat) : Int) - 1 = ((m.arr h).length : Int) := by
     simp
   simp only [Slice.push, hidx] at hpush
   rw [← hids3, ← v3] at hpush
-  obtain ⟨m', hrun, R⟩ := up_transfer (cmp := cmp) (SiftRel.refl hI3) hpush
+  obtain ⟨m', hrun, R⟩ := up_transfer (cmp := cm h) (SiftRel.refl hI3) hpush
   refine ⟨m', hrun0.trans hrun, ?_, ?_, ?_, ?_, ?_⟩
   · exact sift_memOK hh hc3 hl3 ho3 R (by rw [v3]; exact hheap')
   · refine R.perm.trans ?_
@@ -135,11 +135,11 @@ theorem pushElement_core {cmp} (hs : SWO cmp) {m : HMem} {h e : Nat} (hh : h < 2
 
 /-! ### `h.pop()` after the victim has been moved to the end -/
 
-theorem popLast_core {cmp} {m2 : HMem} {h n : Nat} (hh : h < 2)
-    (hc : MemCore m2) (hl : LeftOK m2 (fun _ => True)) (ho : HeapOrd cmp m2 (oth h))
+theorem popLast_core {cm : Nat → Int → Int → Bool} {m2 : HMem} {h n : Nat} (hh : h < 2)
+    (hc : MemCore m2) (hl : LeftOK m2 (fun _ => True)) (ho : HeapOrd (cm (oth h)) m2 (oth h))
     (hlen : (m2.arr h).length = n + 1)
-    (hheap : Heap (cmpId cmp m2.val) ((ids m2 h).take n)) :
-    ∃ m', m2.popLast h = some (m', elemAt m2 h n) ∧ MemOK cmp m' ∧
+    (hheap : Heap (cmpId (cm h) m2.val) ((ids m2 h).take n)) :
+    ∃ m', m2.popLast h = some (m', elemAt m2 h n) ∧ MemOK cm m' ∧
       m'.arr h = (m2.arr h).take n ∧ m'.arr (oth h) = m2.arr (oth h) ∧ m'.val = m2.val ∧
       m'.fresh = m2.fresh ∧ m'.idx.get (elemAt m2 h n) = -1 ∧ m'.own.get (elemAt m2 h n) = none ∧
       (elemAt m2 h n :: m'.arr h).Perm (m2.arr h) := by
@@ -315,8 +315,8 @@ theorem slice_remove_inv {cmp} {s s' : List Int} {x : Int} {n k : Nat} (hlen : s
 /-- What an element-removing operation (`Pop`, `Remove(e)`) leaves behind: the invariant holds,
 exactly `e` has left heap `h`, `e` reports `Index() == -1` and has no owner, nothing else moved
 between heaps, no value changed. -/
-structure Removed (cmp : Int → Int → Bool) (m m' : HMem) (h e : Nat) : Prop where
-  ok : MemOK cmp m'
+structure Removed (cm : Nat → Int → Int → Bool) (m m' : HMem) (h e : Nat) : Prop where
+  ok : MemOK cm m'
   perm : (e :: m'.arr h).Perm (m.arr h)
   other : m'.arr (oth h) = m.arr (oth h)
   val : m'.val = m.val
@@ -324,19 +324,19 @@ structure Removed (cmp : Int → Int → Bool) (m m' : HMem) (h e : Nat) : Prop 
   idx : m'.idx.get e = -1
   own : m'.own.get e = none
 
-theorem heapIds_of_ok {cmp} {m : HMem} {h : Nat} (hh : h < 2) (hok : MemOK cmp m) :
-    Heap (cmpId cmp m.val) (ids m h) :=
-  (heapIds_iff cmp m.val m h).2 ((heapOrd_iff cmp m h).1 (hok.ord h hh))
+theorem heapIds_of_ok {cm : Nat → Int → Int → Bool} {m : HMem} {h : Nat} (hh : h < 2) (hok : MemOK cm m) :
+    Heap (cmpId (cm h) m.val) (ids m h) :=
+  (heapIds_iff (cm h) m.val m h).2 ((heapOrd_iff (cm h) m h).1 (hok.ord h hh))
 
 theorem elemAt_of_nthN {m m2 : HMem} {h a b : Nat} (e : nthN (ids m2 h) a = nthN (ids m h) b) :
     elemAt m2 h a = elemAt m h b := by
   rw [nthN_ids, nthN_ids] at e
   exact Int.ofNat.inj e
 
-theorem pop_spec {cmp} (hs : SWO cmp) {m : HMem} {h : Nat} (hh : h < 2) (hok : MemOK cmp m) :
-    (m.arr h = [] → m.pop cmp h = some (m, none)) ∧
-    (m.arr h ≠ [] → ∃ m', m.pop cmp h = some (m', some (elemAt m h 0)) ∧
-      Removed cmp m m' h (elemAt m h 0)) := by
+theorem pop_spec {cm : Nat → Int → Int → Bool} {m : HMem} {h : Nat} (hs : SWO (cm h)) (hh : h < 2) (hok : MemOK cm m) :
+    (m.arr h = [] → m.pop (cm h) h = some (m, none)) ∧
+    (m.arr h ≠ [] → ∃ m', m.pop (cm h) h = some (m', some (elemAt m h 0)) ∧
+      Removed cm m m' h (elemAt m h 0)) := by
   refine ⟨fun h0 => by simp [HMem.pop, h0], fun hne => ?_⟩
   have hI := hok.core.idx h hh
   have hs' := cmpId_swo hs m.val
@@ -348,7 +348,7 @@ theorem pop_spec {cmp} (hs : SWO cmp) {m : HMem} {h : Nat} (hh : h < 2) (hok : M
     | zero =>
       -- a single element: `return h.pop()`
       obtain ⟨m', hpl, hok', a', o', v', f', i', w', p'⟩ :=
-        popLast_core (cmp := cmp) (n := 0) hh hok.core hok.left (hok.ord _ (oth_lt2 h)) hL
+        popLast_core (cm := cm) (n := 0) hh hok.core hok.left (hok.ord _ (oth_lt2 h)) hL
           (by simpa using heap_nil _)
       refine ⟨m', ?_, hok', p', o', v', f', i', w'⟩
       have e0 : ((m.arr h).length : Int) ≠ 0 := by omega
@@ -358,10 +358,10 @@ theorem pop_spec {cmp} (hs : SWO cmp) {m : HMem} {h : Nat} (hh : h < 2) (hok : M
       have hlen : (ids m h).length = n + 2 := by simpa using hL
       obtain ⟨s', hpop, hheap', _⟩ := slice_pop_big hs' (ids m h) hheap (by omega)
       obtain ⟨s1, s2, b, hsw, hd, hn, rfl⟩ := slice_pop_inv hlen hpop
-      obtain ⟨m1, hm1, R1⟩ := swap_transfer (cmp := cmp) (SiftRel.refl hI) hsw
+      obtain ⟨m1, hm1, R1⟩ := swap_transfer (cmp := cm h) (SiftRel.refl hI) hsw
       obtain ⟨m2, hm2, R2⟩ := downB_transfer R1 hd
       have len2 : (m2.arr h).length = n + 1 + 1 := by rw [R2.perm.length_eq]; exact hL
-      have hheap2 : Heap (cmpId cmp m2.val) ((ids m2 h).take (n + 1)) := by
+      have hheap2 : Heap (cmpId (cm h) m2.val) ((ids m2 h).take (n + 1)) := by
         rw [R2.val, ← R2.idsEq]; exact hheap'
       obtain ⟨m', hpl, hok', a', o', v', f', i', w', p'⟩ :=
         popLast_core hh (sift_core hh hok.core R2) (sift_left hh hok.core hok.left R2)
@@ -398,9 +398,9 @@ theorem live_pos {m : HMem} {h e : Nat} (hh : h < 2) (hc : MemCore m) (hown : m.
   have := (hc.idx h hh).index k (elemAt m h k) (elemAt_get hk)
   rwa [he] at this
 
-theorem remove_spec {cmp} (hs : SWO cmp) {m : HMem} {h e : Nat} (hh : h < 2) (hok : MemOK cmp m)
+theorem remove_spec {cm : Nat → Int → Int → Bool} {m : HMem} {h e : Nat} (hs : SWO (cm h)) (hh : h < 2) (hok : MemOK cm m)
     (hown : m.own.get e = some h) :
-    ∃ m', m.remove cmp h e = some m' ∧ Removed cmp m m' h e := by
+    ∃ m', m.remove (cm h) h e = some m' ∧ Removed cm m m' h e := by
   have hI := hok.core.idx h hh
   have hs' := cmpId_swo hs m.val
   have hheap := heapIds_of_ok hh hok
@@ -412,7 +412,7 @@ theorem remove_spec {cmp} (hs : SWO cmp) {m : HMem} {h e : Nat} (hh : h < 2) (ho
   by_cases hkn : k = n
   · -- the last element: nothing to fix
     subst hkn
-    have hheap2 : Heap (cmpId cmp m.val) ((ids m h).take k) :=
+    have hheap2 : Heap (cmpId (cm h) m.val) ((ids m h).take k) :=
       heap_take (by simp; omega) (fun c hc hc1 hlo => hheap c (by simp; omega) hc1 hlo)
     obtain ⟨m', hpl, hok', a', o', v', f', i', w', p'⟩ :=
       popLast_core hh hok.core hok.left (hok.ord _ (oth_lt2 h)) hL hheap2
@@ -424,10 +424,10 @@ theorem remove_spec {cmp} (hs : SWO cmp) {m : HMem} {h e : Nat} (hh : h < 2) (ho
     have hlen : (ids m h).length = n + 1 := by simpa using hL
     obtain ⟨s', hrem, hheap', _⟩ := slice_remove_in hs' (ids m h) k hheap (by omega)
     obtain ⟨s1, s2, hsw, hfix, hn, rfl⟩ := slice_remove_inv hlen hlt hrem
-    obtain ⟨m1, hm1, R1⟩ := swap_transfer (cmp := cmp) (SiftRel.refl hI) hsw
+    obtain ⟨m1, hm1, R1⟩ := swap_transfer (cmp := cm h) (SiftRel.refl hI) hsw
     obtain ⟨m2, hm2, R2⟩ := fix_transfer R1 hfix
     have len2 : (m2.arr h).length = n + 1 := by rw [R2.perm.length_eq]; exact hL
-    have hheap2 : Heap (cmpId cmp m2.val) ((ids m2 h).take n) := by
+    have hheap2 : Heap (cmpId (cm h) m2.val) ((ids m2 h).take n) := by
       rw [R2.val, ← R2.idsEq]; exact hheap'
     obtain ⟨m', hpl, hok', a', o', v', f', i', w', p'⟩ :=
       popLast_core hh (sift_core hh hok.core R2) (sift_left hh hok.core hok.left R2)
@@ -448,10 +448,10 @@ theorem remove_spec {cmp} (hs : SWO cmp) {m : HMem} {h e : Nat} (hh : h < 2) (ho
 
 /-! ### `Fix(e)` after an arbitrary change of `e.Value` -/
 
-theorem fixElem_spec {cmp} (hs : SWO cmp) {m0 : HMem} {val' : IM} {h e : Nat} (hh : h < 2)
-    (hok : MemOK cmp m0) (hv : ∀ x, x ≠ e → val'.get x = m0.val.get x)
+theorem fixElem_spec {cm : Nat → Int → Int → Bool} {m0 : HMem} {val' : IM} {h e : Nat} (hs : SWO (cm h)) (hh : h < 2)
+    (hok : MemOK cm m0) (hv : ∀ x, x ≠ e → val'.get x = m0.val.get x)
     (hown : m0.own.get e = some h) :
-    ∃ m', ({ m0 with val := val' } : HMem).fixElem cmp h e = some m' ∧ MemOK cmp m' ∧
+    ∃ m', ({ m0 with val := val' } : HMem).fixElem (cm h) h e = some m' ∧ MemOK cm m' ∧
       (m'.arr h).Perm (m0.arr h) ∧ m'.arr (oth h) = m0.arr (oth h) ∧ m'.val = val' ∧
       m'.fresh = m0.fresh := by
   let m : HMem := { m0 with val := val' }
@@ -462,10 +462,10 @@ theorem fixElem_spec {cmp} (hs : SWO cmp) {m0 : HMem} {val' : IM} {h e : Nat} (h
   have hI := hc.idx h hh
   have hs' := cmpId_swo hs val'
   obtain ⟨k, hk, hek, hidx⟩ := live_pos hh hc0 hown
-  have hO : OrdAt cmp m0.val m0 h := (heapOrd_iff cmp m0 h).1 (hok.ord h hh)
-  have hoth : HeapOrd cmp m (oth h) := by
+  have hO : OrdAt (cm h) m0.val m0 h := (heapOrd_iff (cm h) m0 h).1 (hok.ord h hh)
+  have hoth : HeapOrd (cm (oth h)) m (oth h) := by
     rw [heapOrd_iff]
-    refine ordAt_congr (m := m0) rfl ?_ ((heapOrd_iff cmp m0 (oth h)).1 (hok.ord _ (oth_lt2 h)))
+    refine ordAt_congr (m := m0) rfl ?_ ((heapOrd_iff (cm (oth h)) m0 (oth h)).1 (hok.ord _ (oth_lt2 h)))
     intro x hx
     apply hv
     intro hxe
@@ -478,7 +478,7 @@ theorem fixElem_spec {cmp} (hs : SWO cmp) {m0 : HMem} {val' : IM} {h e : Nat} (h
     exact hck (elemAt_inj (hc0.idx h hh).nodup hc hk (hce.trans hek.symm))
   have hidsm : ids m h = ids m0 h := rfl
   have hpair : ∀ c, c < (m0.arr h).length → 1 ≤ c → c ≠ k → par c ≠ k →
-      cmpId cmp val' (nthN (ids m h) c) (nthN (ids m h) (par c)) = false := by
+      cmpId (cm h) val' (nthN (ids m h) c) (nthN (ids m h) (par c)) = false := by
     intro c hc hc1 hck hpk
     have hp : par c < (m0.arr h).length := by unfold par; omega
     rw [hidsm, nthN_ids, nthN_ids]
@@ -486,7 +486,7 @@ theorem fixElem_spec {cmp} (hs : SWO cmp) {m0 : HMem} {val' : IM} {h e : Nat} (h
     rw [hval c hc hck, hval (par c) hp hpk]
     exact hO c hc hc1
   have hgrand : 1 ≤ k → ∀ c, c < (m0.arr h).length → 1 ≤ c → par c = k →
-      cmpId cmp val' (nthN (ids m h) c) (nthN (ids m h) (par k)) = false := by
+      cmpId (cm h) val' (nthN (ids m h) c) (nthN (ids m h) (par k)) = false := by
     intro hk1 c hc hc1 hpc
     have hck : c ≠ k := by unfold par at hpc; omega
     have hpk : par k ≠ k := by unfold par; omega
@@ -499,8 +499,8 @@ theorem fixElem_spec {cmp} (hs : SWO cmp) {m0 : HMem} {val' : IM} {h e : Nat} (h
     exact hs.negTrans (hO k hk hk1) h1
   obtain ⟨s', hrun, hlen, _, _, hheapOn⟩ :=
     fix_spec_core hs' (ids m h) k (m0.arr h).length (by simp [hidsm]) hk hpair hgrand
-  obtain ⟨m', hfix, R⟩ := fix_transfer (cmp := cmp) (SiftRel.refl hI) hrun
-  have hheap' : Heap (cmpId cmp m.val) s' := by
+  obtain ⟨m', hfix, R⟩ := fix_transfer (cmp := cm h) (SiftRel.refl hI) hrun
+  have hheap' : Heap (cmpId (cm h) m.val) s' := by
     have : s'.length = (m0.arr h).length := by rw [hlen]; simp [hidsm]
     unfold Heap; rw [this]; exact hheapOn
   refine ⟨m', ?_, sift_memOK hh hc hl hoth R hheap', R.perm, R.other, R.val, R.fresh⟩
@@ -509,7 +509,7 @@ theorem fixElem_spec {cmp} (hs : SWO cmp) {m0 : HMem} {val' : IM} {h e : Nat} (h
   have g2 : ¬ (m.idx.get e < 0 ∨ m.idx.get e ≥ ((m.arr h).length : Int)) := by
     show ¬ (m0.idx.get e < 0 ∨ m0.idx.get e ≥ ((m0.arr h).length : Int)); omega
   have e3 : m.idx.get e = (k : Int) := hidx
-  show m.fixElem cmp h e = some m'
+  show m.fixElem (cm h) h e = some m'
   simp only [HMem.fixElem, g1, g2, if_false]
   rw [e3]
   exact hfix
